@@ -219,6 +219,8 @@ fn cmd_gen(args: &[String]) {
     let steps: usize = arg(args, "--steps", "3").parse().unwrap();
     let per: usize = arg(args, "--per-shard", "25").parse().unwrap();
     let max_cyclic: usize = arg(args, "--max-cyclic", "3").parse().unwrap();
+    // wall-clock cap for one SeaORM render in a child process (an ordinary render takes a few milliseconds)
+    let cap_ms: u64 = arg(args, "--cap-ms", "2500").parse().unwrap();
     let outdir = PathBuf::from(arg(args, "--out", "out"));
     let corpus = arg(args, "--corpus", "");
     std::fs::create_dir_all(&outdir).unwrap();
@@ -270,7 +272,7 @@ fn cmd_gen(args: &[String]) {
             let cyclic = advgen::fk_cycle_from(m, t);
             // --- SeaORM
             let (sea_g, sea_j, sea_text) = if cyclic {
-                let (r, how) = render_in_child(&cases_path, i, j, 10_000);
+                let (r, how) = render_in_child(&cases_path, i, j, cap_ms);
                 match r {
                     Some(text) => match seaparse::parse(&text) {
                         Ok(d) => (format!("(SeaOk {})", d.gs()), json!({"status": "ok", "subprocess": how, "o17": seaparse::oracle(&d, &names)}), Some(text)),
@@ -579,18 +581,34 @@ fn cmd_c16(args: &[String]) {
 }
 
 fn cmd_gallina(args: &[String]) {
+    // one O-C16 case as the pair (normalised slice, models as written, history)
+    let c16 = arg(args, "--c16", "");
+    if !c16.is_empty() {
+        let want: Vec<u64> = arg(args, "--idx", "").split(',').filter_map(|x| x.parse().ok()).collect();
+        for c in load_cases(&c16) {
+            let i = c["idx"].as_u64().unwrap_or(0);
+            if !want.contains(&i) {
+                continue;
+            }
+            let models: Vec<TableDef> = serde_json::from_value(c["models"].clone()).unwrap_or_default();
+            let history: Vec<MigrationPlan> = serde_json::from_value(c["history"].clone()).unwrap_or_default();
+            let slice: Vec<TableDef> = models.iter().filter_map(|t| t.normalize().ok()).collect();
+            println!("CASE {} {}\nENDCASE", i, compress_literals(&format!("({}, {}, {})", slice.gs(), models.gs(), history.gs())));
+        }
+        return;
+    }
     let m = arg(args, "--models", "");
     if !m.is_empty() {
         let v: Value = serde_json::from_str(&std::fs::read_to_string(&m).unwrap()).unwrap();
         let ms: Vec<TableDef> = serde_json::from_value(v.get("models").cloned().unwrap_or(v)).unwrap();
         let slice = if arg(args, "--normalize", "1") == "1" { advgen::normalized_slice(&ms).unwrap_or(ms) } else { ms };
-        println!("{}", slice.gs());
+        println!("{}", compress_literals(&slice.gs()));
         return;
     }
     let a = arg(args, "--action", "");
     let v: Value = serde_json::from_str(&std::fs::read_to_string(&a).unwrap()).unwrap();
     let act: MigrationAction = serde_json::from_value(v.get("action").cloned().unwrap_or(v)).unwrap();
-    println!("{}", act.gs());
+    println!("{}", compress_literals(&act.gs()));
 }
 
 fn main() {
